@@ -22,9 +22,25 @@ def min_size_of(cost, p):
     return {"L2Cost": 1, "GaussianVarCost": 2, "GaussianCovCost": p + 1}[cost]
 
 
+def _typed(v, as_int):
+    """A fixed parameter may be written as a Python int / an integer array when its value is integral."""
+    if not as_int:
+        return float(v) if not isinstance(v, list) else np.asarray(v, dtype=float)
+    if isinstance(v, list):
+        a = np.asarray(v, dtype=float)
+        return a.astype(np.int64) if np.all(a == np.round(a)) else a
+    return int(v) if float(v).is_integer() else float(v)
+
+
 def build_param(cost, param):
     if param is None:
         return None
+    if param.get("int_typed"):
+        m = _typed(param["mean"], True)
+        if cost == "L2Cost":
+            return m
+        second = param["var"] if cost == "GaussianVarCost" else param["cov"]
+        return (m, _typed(second, True))
     if cost == "L2Cost":
         m = param["mean"]
         return float(m) if not isinstance(m, list) else np.asarray(m, dtype=float)
@@ -53,18 +69,22 @@ def fixed_param(draw, cost, p):
         return [draw(elem) for _ in range(p)]
 
     mean_elem = st.one_of(st.integers(-5, 5).map(float), st.floats(-10, 10, allow_nan=False))
-    param = {"mean": scalar_or_vec(mean_elem)}
+    param = {"mean": scalar_or_vec(mean_elem), "int_typed": draw(st.sampled_from([False, False, True]))}
+    if param["int_typed"]:
+        # integral values written as Python ints / integer arrays: mean 1, variance 2, covariance [[2,1],[1,3]]
+        param["mean"] = scalar_or_vec(st.integers(-5, 5).map(float))
     if cost == "GaussianVarCost":
-        param["var"] = scalar_or_vec(st.one_of(st.sampled_from([1.0, 0.5, 0.01, 4.0, 100.0, 1e-6, 1e-9, 1e4]),
-                                               st.floats(1e-2, 1e2, allow_nan=False)))
+        param["var"] = scalar_or_vec(st.sampled_from([2.0, 1.0, 3.0, 4.0, 100.0])) if param["int_typed"] else \
+            scalar_or_vec(st.one_of(st.sampled_from([1.0, 0.5, 0.01, 4.0, 100.0, 1e-6, 1e-9, 1e4]),
+                                    st.floats(1e-2, 1e2, allow_nan=False)))
     elif cost == "GaussianCovCost":
         # any positive-definite covariance: also small / large overall scales (eigenvalues stay far above 1e-16)
-        scale = draw(st.sampled_from([1.0, 1.0, 1e-4, 1e-9, 1e3]))
+        scale = 1.0 if param["int_typed"] else draw(st.sampled_from([1.0, 1.0, 1e-4, 1e-9, 1e3]))
         if draw(st.booleans()):
-            param["cov"] = draw(st.sampled_from([1.0, 0.25, 3.0, 50.0])) * scale
+            param["cov"] = draw(st.sampled_from([2.0, 1.0, 3.0, 50.0] if param["int_typed"] else [1.0, 0.25, 3.0, 50.0])) * scale
         else:
             A = [[draw(st.integers(-3, 3)) for _ in range(p)] for _ in range(p)]
-            c = draw(st.sampled_from([0.5, 1.0, 2.0]))
+            c = draw(st.sampled_from([1.0, 2.0] if param["int_typed"] else [0.5, 1.0, 2.0]))
             A = np.asarray(A, dtype=float)
             param["cov"] = ((A @ A.T + c * np.eye(p)) * scale).tolist()
     return param
@@ -232,6 +252,74 @@ def check_batch(case):
     return {"nontrivial": len(cuts) > 1, "classes": classes}
 
 
+# ------------------------------------------------------------------ same buffer, new contents
+
+
+@st.composite
+def refill_cases(draw, tier):
+    case = draw(value_cases(tier))
+    n, p = len(case["X"]), len(case["X"][0])
+    case["X2"] = draw(D.any_matrix(n, p))
+    case["container"] = draw(st.sampled_from(["ndarray", "DataFrame", "ndarray1d" if p == 1 else "ndarray"]))
+    case["same_cost_object"] = draw(st.booleans())
+    case["evaluate_between"] = draw(st.booleans())
+    return case
+
+
+def check_refill(case):
+    """fit(buffer); the caller refills the same buffer in place; fit again (same or new cost object):
+    evaluate must describe the buffer's *current* contents."""
+    import pandas as pd
+
+    cost, param = case["cost"], case["param"]
+    X1 = np.asarray(case["X"], dtype=float)
+    X2 = np.asarray(case["X2"], dtype=float)
+    n, p = X1.shape
+    cuts = np.asarray(case["cuts"], dtype=np.int64)
+    if case["container"] == "DataFrame":
+        buf = pd.DataFrame(X1.copy())
+    elif case["container"] == "ndarray1d":
+        buf = X1[:, 0].copy()
+    else:
+        buf = X1.copy()
+    classes = [f"cost={cost}", f"container={case['container']}"]
+    try:
+        with sut(f"{cost} fit / refill / fit / evaluate", allowed=(RuntimeError,)):
+            c1 = build_cost(cost, param).fit(buf)
+            if case["evaluate_between"]:
+                try:
+                    c1.evaluate(cuts)
+                except RuntimeError:
+                    pass
+            if isinstance(buf, pd.DataFrame):
+                buf.iloc[:, :] = X2
+            elif buf.ndim == 1:
+                buf[:] = X2[:, 0]
+            else:
+                buf[:] = X2
+            c2 = (c1 if case["same_cost_object"] else build_cost(cost, param)).fit(buf)
+            out = np.asarray(c2.evaluate(cuts))
+    except RuntimeError as e:
+        if "positive definite" in str(e):
+            return {"nontrivial": False, "classes": classes + ["not_pd_error"]}
+        raise
+    M = max(D.max_abs(case["X"]), D.max_abs(case["X2"]))
+    differs = False
+    for i, (s_, e_) in enumerate(cuts):
+        ex = expected_row(cost, param, X2, int(s_), int(e_), n, M)
+        if ex[0] != "interval":
+            continue
+        if np.any(out[i] < ex[1]) or np.any(out[i] > ex[2]):
+            raise Violation("after the fitted buffer was refilled in place and fitted again, evaluate does not describe its "
+                            "current contents", cost=cost, cut=[int(s_), int(e_)], got=out[i].tolist(),
+                            expected_low=np.asarray(ex[1]).tolist(), expected_high=np.asarray(ex[2]).tolist(),
+                            container=case["container"], same_cost_object=case["same_cost_object"])
+        old = expected_row(cost, param, X1, int(s_), int(e_), n, M)
+        if old[0] == "interval" and (np.any(old[2] < ex[1]) or np.any(old[1] > ex[2])):
+            differs = True
+    return {"nontrivial": differs, "classes": classes}
+
+
 # ------------------------------------------------------------------ parameter validation
 
 
@@ -294,7 +382,7 @@ FACETS = [
         name="values",
         check=check_values,
         strategy=value_cases,
-        rule=("L2Cost/GaussianVarCost/GaussianCovCost x optimal/fixed parameter (scalar or per-column mean/variance, "
+        rule=("L2Cost/GaussianVarCost/GaussianCovCost x optimal/fixed parameter (scalar or per-column mean/variance, float or integer-typed, "
               "scalar or A A^T + cI covariance), data families exact/generic/structured/constant/duplicated column, "
               "batches of 1..16 admissible intervals or all intervals for n<=8; non-trivial = a proper sub-interval "
               "with a non-constant slice whose value was compared with the definitional value"),
@@ -307,6 +395,15 @@ FACETS = [
         rule=("same generators; one interval of the batch is re-evaluated alone, in the reversed batch, as a 1-D row "
               "and after evaluating unrelated intervals; non-trivial = batch of >= 2 intervals"),
         n_quick=800, n_thorough=12000, shards_quick=8, shards_thorough=16,
+    ),
+    Facet(
+        name="refilled_buffer",
+        check=check_refill,
+        strategy=refill_cases,
+        rule=("fit on a buffer (2-D/1-D ndarray or DataFrame), the caller overwrites the buffer in place with other data of the "
+              "same shape, fit again with the same or a new cost object, evaluate: must equal the definitional value of the "
+              "current contents; non-trivial = some interval whose old and new values are separated"),
+        n_quick=400, n_thorough=6000, shards_quick=4, shards_thorough=16,
     ),
     Facet(
         name="invalid_fixed_parameters",
